@@ -40,7 +40,7 @@ def float_class_table(F, cb):
 
     class FC(Interp):
         def __init__(self, cls):
-            Interp.__init__(self, F, cb, {2: 'X'}, False, 0)
+            Interp.__init__(self, F, cb, {cb.arg_count: 'X'}, False, 0)
             self.cls = cls
 
         def call(self, t):
